@@ -53,6 +53,10 @@ func (s *sim) tweakCoinbase(blk *types.Block, bad string, height uint32, miner *
 			outs[1].Value -= half
 			outs = append(outs, &common2.Output{AssetID: core.ELAAssetID, Value: half, ProgramHash: miner.acc.ProgramHash, Type: common2.OTNone, Payload: &outputpayload.DefaultOutput{}})
 		}
+	case "cb-extra-0", "cb-extra-1", "cb-extra-big":
+		// the three expected outputs untouched, plus one more for the miner
+		v := map[string]common.Fixed64{"cb-extra-0": 0, "cb-extra-1": 1, "cb-extra-big": 1000 * 100000000}[bad]
+		outs = append(outs, &common2.Output{AssetID: core.ELAAssetID, Value: v, ProgramHash: miner.acc.ProgramHash, Type: common2.OTNone, Payload: &outputpayload.DefaultOutput{}})
 	case "cb-count2":
 		if len(outs) >= 3 {
 			outs[1].Value += outs[2].Value
